@@ -335,6 +335,13 @@ class Waiting(State):
             self.done_callback = None
         self._waiting_future = futures.Future()
 
+    def exit(self) -> None:
+        super().exit()
+        # The state can be left while `execute` is still waiting (the process was failed, e.g. by a scheduled callback
+        # that raised): release it, so that the task stepping the process can finish
+        if not self._waiting_future.done():
+            self._waiting_future.set_result(NULL)
+
     def interrupt(self, reason: Any) -> None:
         # This will cause the future in execute() to raise the exception
         if not self._waiting_future.done():
